@@ -520,8 +520,27 @@ def r13_paths(text, fired):
     return text
 
 
+def r12_iter_flatten(text, fired):
+    """for P in E.iter().flatten() { B }   ->   for opt_N in E.iter() { if let Some(P) = opt_N { B } }
+    (definition of Iterator::flatten over an iterator of &Option<T>; Verus has no specification for iterator adapters)"""
+    n = 0
+    while True:
+        msk = mask(text)
+        m = re.search(r'\bfor\s+(\w+)\s+in\s+([\w\.]+)\.iter\(\)\.flatten\(\)\s*\{', msk)
+        if not m:
+            break
+        n += 1
+        ob = m.end() - 1
+        cb = match_close(msk, ob)
+        new = 'for opt_%d in it_%d: %s.iter() { if let Some(%s) = opt_%d {%s} }' % (n, n, m.group(2), m.group(1), n, text[ob + 1:cb])
+        fired.append('R12 for %s in %s.iter().flatten() -> for + if let Some' % (m.group(1), m.group(2)))
+        text = text[:m.start()] + new + text[cb + 1:]
+    return text
+
+
 def rewrite_body(text, fired):
     text = r6_resolve_cfg(text, fired)
+    text = r12_iter_flatten(text, fired)
     text = r13_paths(text, fired)
     text = r2_drop_logging(text, fired)
     text = r4_map_err_ctx(text, fired)
